@@ -156,9 +156,12 @@ func (p *Path) countUnwind(fr *frame, instr ssa.Instruction) {
 	if instr == nil {
 		return
 	}
-	p.unwind[instr]++
-	if p.unwind[instr] > p.unwindBound {
-		panic(abortPath{kind: "unwind", reason: fmt.Sprintf("symbolic branch taken more than %d times @ %s", p.unwindBound, fr.stack())})
+	if fr.unwind == nil {
+		fr.unwind = map[ssa.Instruction]int{}
+	}
+	fr.unwind[instr]++
+	if fr.unwind[instr] > p.unwindBound {
+		panic(abortPath{kind: "unwind", reason: fmt.Sprintf("symbolic branch taken more than %d times in one function activation @ %s", p.unwindBound, fr.stack())})
 	}
 }
 
@@ -478,7 +481,7 @@ func (p *Path) globalAddr(g *ssa.Global) *value {
 	if a, ok := p.globals[g]; ok {
 		return a
 	}
-	if g.Pkg != nil && !p.eng.isOwnPkg(g.Pkg.Pkg) && !p.eng.RunInit[g.Pkg.Pkg.Path()] {
+	if g.Pkg != nil && !p.eng.initRuns(g.Pkg.Pkg) {
 		if p.eng.hasInitializer(g) {
 			name := g.Pkg.Pkg.Path() + "." + g.Name()
 			if v, ok := p.eng.globalModel(p, g); ok {
